@@ -19,7 +19,12 @@ EXPLANATION = (
     'is closed on death, is dominated by the dead / remote-dead guard. R4 force path: in the process-backed terminate bodies '
     'the branch `child still alive and force` reaches Process.terminate() followed by a join, and force defaults to True. '
     'R5 return, do not raise: no exception of the injection, of the control-pipe request/acknowledgement or of the control '
-    'RPC can escape the parent-side methods.')
+    'RPC can escape the parent-side methods. R6: the identity test behind is_child / is_alive / wait / terminate never uses the '
+    'interpreter\'s thread ident (threading.get_ident(), Thread.ident, the recorded self._ident): idents are handed to the next '
+    'thread created after the old one exits, so a later thread would be taken for the dead worker\'s child; the recorded ident '
+    'is read only as the target of foreign_raise (while the child is known alive), as part of the identity report sent to the '
+    'parent, and in assertions. And after a forced kill the server shuts the data socket down (sockets.py) - otherwise the '
+    'parent-side terminate(force=True) of a context worker ends by signalling its own process.')
 TECHNIQUE = 'blocking-call discipline, dominance and handler coverage on the CFG (static analysis)'
 
 DEAD_GUARDS = ('not self.is_alive()', 'not self._started or self._dead', 'self._dead', 'not self._started')
@@ -109,9 +114,51 @@ def units(ctx):
     return out
 
 
+def check_ident_reads(ctx):
+    """R6 who-may-read frame on the recorded interpreter thread ident"""
+    n = 0
+    for f in ctx.prog.funcs.values():
+        pm = None
+        for a in ast.walk(f.node):
+            if not (isinstance(a, ast.Attribute) and a.attr == '_ident' and isinstance(a.ctx, ast.Load) and is_name(a.value, 'self')):
+                continue
+            if any(any(y is a for y in ast.walk(nf.node)) for nf in f.nested.values()):
+                continue
+            pm = pm or parent_map(f.node)
+            n += 1
+            ok, cur = False, a
+            while cur in pm:
+                par = pm[cur]
+                if isinstance(par, ast.Assert):
+                    ok = True
+                if isinstance(par, ast.Call) and last_attr(par) == 'foreign_raise' and par.args and par.args[0] is cur:
+                    ok = True
+                if isinstance(par, ast.Call) and last_attr(par) in ('put', 'send', 'send_msg') and isinstance(cur, ast.Tuple):
+                    ok = True
+                if isinstance(par, ast.stmt):
+                    break
+                cur = par
+            ctx.check('R6', f'{f.short}: the recorded thread ident is read only by foreign_raise, the identity report and assertions', ok, f.short, f'ident-read:{norm(pm[a])[:60]}',
+                      f'{f.short} uses self._ident in `{short(pm[a])}`: interpreter thread idents are recycled as soon as a thread has exited, so a decision based on it '
+                      '(is_child and with it is_alive / wait / terminate) takes a later thread for the dead worker\'s child - is_alive() True for a dead worker, '
+                      'wait() raising "cannot wait for itself", terminate() raising in the caller', where=loc(f, a))
+    ctx.floor('reads of the recorded thread ident', n, 6)
+    # and the identity properties themselves do not call threading.get_ident()
+    for cls in ctx.prog.classes.values() if hasattr(ctx.prog, 'classes') else []:
+        pass
+    for f in ctx.prog.funcs.values():
+        if f.name in ('is_child', 'is_alive') and f.cls is not None:
+            bad = [c for c in calls_in(f.node) if (dotted(c.func) or '').endswith('get_ident')]
+            ctx.check('R6', f'{f.short} does not identify threads by threading.get_ident()', not bad, f.short, 'identity-by-thread-ident',
+                      f'{f.short} compares interpreter thread idents, which are recycled after a thread exits', where=loc(f, bad[0]) if bad else loc(f, f.node))
+
+
 def run(ctx):
     from ..frame import check_frame_attrs
+    from ..sockets import check_forced_kill_eof
     check_frame_attrs(ctx, 'C04', 'R3')
+    check_ident_reads(ctx)
+    check_forced_kill_eof(ctx, 'R6')
     P = ctx.prog
     us = units(ctx)
     ctx.floor('wait/terminate/is_alive implementation bodies', len(us), 14)
